@@ -33,7 +33,9 @@ impl LintContext {
             .pulled_by(2)
             .map(|v| document.token_indices_intersecting(v))
             .unwrap_or_default();
-        let sequel_tokens = document.token_indices_intersecting(lint.span.with_len(2).pushed_by(2));
+        // The two characters directly after the lint (not two characters into it).
+        let sequel_tokens = document
+            .token_indices_intersecting(lint.span.with_len(2).pushed_by(lint.span.len()));
 
         let tokens = prequel_tokens
             .into_iter()
